@@ -288,8 +288,8 @@ def rule_thread(chk, repo, rid='C10.d', quals=('cli.generate_index:generate_inde
                'annotation not passed (cds_start_NF lost)', key=f"{q}::pool-arg::anno", fn=f.qual)
 
 
-def rule_cleave(chk, repo):
-    chk.rule('C10.e', 'R-ONCE: enzymatic_cleave emits every window within the miscleavage limit; M-removal guard', 7)
+def rule_cleave(chk, repo, rid='C10.e'):
+    chk.rule(rid, 'R-ONCE: enzymatic_cleave emits every window within the miscleavage limit; M-removal guard', 7)
     f = repo.func(CLEAVE)
     chk.uses(f)
     cfg = CFG(f.node)
@@ -300,10 +300,10 @@ def rule_cleave(chk, repo):
     outer, inner = whiles[0], whiles[1]
     if inner.lineno < outer.lineno:
         outer, inner = inner, outer
-    chk.ob('C10.e', 'outer loop visits every start site', repo.loc(f, outer), unparse(outer.test) == 'start < len(sites) - 1',
+    chk.ob(rid, 'outer loop visits every start site', repo.loc(f, outer), unparse(outer.test) == 'start < len(sites) - 1',
            f"outer loop test is '{unparse(outer.test)}'", key=CLEAVE + '::outer-test', fn=f.qual)
     t = unparse(inner.test).replace(' ', '')
-    chk.ob('C10.e', 'inner loop admits exactly miscleavage+1 consecutive fragments', repo.loc(f, inner),
+    chk.ob(rid, 'inner loop admits exactly miscleavage+1 consecutive fragments', repo.loc(f, inner),
            t in ('end-start-1<=miscleavageandend<len(sites)', 'end<len(sites)andend-start-1<=miscleavage'),
            f"inner loop test is '{unparse(inner.test)}' (miscleavage window altered)", key=CLEAVE + '::inner-test', fn=f.qual)
     ps = iteration_paths(cfg, inner, max_paths=2000)
@@ -314,14 +314,14 @@ def rule_cleave(chk, repo):
         adv = p.count(lambda n: n.kind == 'stmt' and norm_stmt(n.ast) == 'end += 1')
         if p.end_kind() != 'back' or once != 1 or adv != 1:
             bad = bad or p
-    chk.ob('C10.e', 'every inner iteration emits the window and advances (no early exit)', repo.loc(f, inner), bad is None,
+    chk.ob(rid, 'every inner iteration emits the window and advances (no early exit)', repo.loc(f, inner), bad is None,
            'an iteration path of the window loop leaves early or skips update_peptides(peptide)/end += 1: some digestion '
            'products (or their M-removed form) are never considered', key=CLEAVE + '::inner-once',
            path=bad.describe(rel) if bad else None, fn=f.qual)
     ps2 = iteration_paths(cfg, outer, loop_bound=1, max_paths=5000)
     bad2 = [p for p in ps2 if p.end_kind() != 'back' or p.count(lambda n: n.kind == 'stmt' and norm_stmt(n.ast) == 'start += 1') != 1
             or p.count(lambda n: n.kind == 'stmt' and norm_stmt(n.ast) == 'end = start + 1') != 1]
-    chk.ob('C10.e', 'outer iteration resets end and advances start exactly once', repo.loc(f, outer), not bad2,
+    chk.ob(rid, 'outer iteration resets end and advances start exactly once', repo.loc(f, outer), not bad2,
            'outer loop bookkeeping altered', key=CLEAVE + '::outer-once', path=bad2[0].describe(rel) if bad2 else None, fn=f.qual)
     # M removal guard
     mcalls = [c for c in G.find_calls(inner, 'update_peptides') if unparse(c.args[0]) == 'peptide[1:]']
@@ -332,14 +332,14 @@ def rule_cleave(chk, repo):
         ok = fx.get('0 == start') is True and fx.get('cds_start_nf') is False and fx.get("peptide.seq.startswith('M')") is True
         ok = ok and len([k for k in fx if k not in ('0 == start', 'cds_start_nf', "peptide.seq.startswith('M')",
                                                     'start < len(sites) - 1', 'end - start - 1 <= miscleavage', 'end < len(sites)')]) == 0
-    chk.ob('C10.e', "M-removed form emitted iff start==0, not cds_start_nf, startswith('M')", repo.loc(f, inner), ok,
+    chk.ob(rid, "M-removed form emitted iff start==0, not cds_start_nf, startswith('M')", repo.loc(f, inner), ok,
            'the N-terminal-methionine-removed form is not guarded by exactly (first fragment, known CDS start, leading M)',
            key=CLEAVE + '::m-removal-guard', fn=f.qual)
     # sites = [0] + cleave sites + [len]
     txt = [norm_stmt(s) for s in f.node.body if not isinstance(s, (ast.FunctionDef, ast.While, ast.Expr)) or isinstance(s, ast.Expr)]
     ok = 'sites = [0]' in txt and 'sites.append(len(self))' in txt and \
         any(t.startswith('sites += self.find_all_enzymatic_cleave_sites(rule=rule, exception=exception)') for t in txt)
-    chk.ob('C10.e', 'fragment boundaries are 0, every cleave site, len', f.where, ok, 'site list construction altered',
+    chk.ob(rid, 'fragment boundaries are 0, every cleave site, len', f.where, ok, 'site list construction altered',
            key=CLEAVE + '::sites', fn=f.qual)
     # filter inside update_peptides
     up = [n for n in walk_no_nested(f.node) if isinstance(n, ast.FunctionDef) and n.name == 'update_peptides']
@@ -349,7 +349,7 @@ def rule_cleave(chk, repo):
         ok = "if 'X' in peptide.seq:\n        return" in t and 'len(peptide.seq) >= min_length' in t and \
             'len(peptide.seq) <= max_length' in t and ('mol_wt > min_mw' in t or 'mol_wt >= min_mw' in t) and \
             'if weight_flag and length_flag:\n        peptides.append(peptide)' in t
-    chk.ob('C10.e', 'digest filter = no X, length within [min,max], mass above min', repo.loc(f, up[0]) if up else f.where, ok,
+    chk.ob(rid, 'digest filter = no X, length within [min,max], mass above min', repo.loc(f, up[0]) if up else f.where, ok,
            'update_peptides filter altered', key=CLEAVE + '::filter', fn=f.qual)
 
 
